@@ -463,8 +463,9 @@ def run(ctx: Ctx) -> None:
                         rep.bad("C09.R3", f.qname, desc, f.loc(r), w + ["`x = dds.load(p); dds.keep(p, f)` is accepted and the load silently uses the previous content of p"],
                                 stmt_key(r), what="a load that precedes the producer of its path in the same evaluation is not rejected")
     for f in prog.funcs.values():
-        if f.module is main_mod and f.parent is not None and any(isinstance(n, ast.Call) and isinstance(n.func, ast.Attribute) and n.func.attr == "get"
-                                                                and _rra in unparse(n.func.value) for n in f.own_nodes()):
+        # (the look-up of a late reference: a closure of the function inspector, or a method / function of the module it was moved to)
+        if f.module is main_mod and any(isinstance(n, ast.Call) and isinstance(n.func, ast.Attribute) and n.func.attr == "get"
+                                        and _rra in unparse(n.func.value) for n in f.own_nodes()):
             n3 += 1
             asserts = [n for n in f.own_nodes() if isinstance(n, ast.Assert)]
             raises = [n for n in f.own_nodes() if isinstance(n, ast.Raise) and error_code_of(n) is not None]
